@@ -14,6 +14,8 @@ pub mod c18;
 pub mod c17;
 pub mod drivers9;
 pub mod c09;
+pub mod drivers;
+pub mod c08;
 use crate::Ctx;
 pub fn run(prop: &str, ctx: &mut Ctx) -> bool {
     match prop {
@@ -37,6 +39,7 @@ pub fn run(prop: &str, ctx: &mut Ctx) -> bool {
         "C18" => c18::run(ctx),
         "C17" => c17::run(ctx),
         "C09" => c09::run(ctx),
+        "C08" => c08::run(ctx),
         _ => return false,
     }
     true
